@@ -1,6 +1,9 @@
 // localpool drives the real pool.LocalPool (pkg/pool/peer.go) through a single-node PeerPool, where
 // every subscriber is owned locally: Allocate -> allocateLocal, Release -> releaseLocal, Get, Stats,
-// and the reverse index ipToSub through the verif hook LocalOwnerOfIPForVerif.
+// and the reverse index ipToSub through the verif hook LocalOwnerOfIPForVerif.  `burst s3 k` lets k
+// goroutines request an address for the same subscriber at the same moment (they are parked at the pool
+// lock, which the harness holds through HoldLocalPoolForVerif, and released together); `audit` compares
+// allocations, free list and reverse index with each other and with the number of addresses built.
 package main
 
 import (
@@ -8,6 +11,7 @@ import (
 	"fmt"
 	"math/rand"
 	"net"
+	"os"
 	"strconv"
 	"strings"
 
@@ -42,8 +46,11 @@ var largeGeos = []flx.V4{
 func randOp(r *rand.Rand, g flx.V4, subs int) string {
 	s := fmt.Sprintf("s%d", 1+r.Intn(subs))
 	switch x := r.Intn(100); {
-	case x < 42:
+	case x < 34:
 		return "alloc " + s
+	case x < 44:
+		// 2-5 concurrent first-time (or repeated) requests of one subscriber
+		return fmt.Sprintf("burst %s %d", s, 2+r.Intn(4))
 	case x < 70:
 		return "release " + s
 	case x < 80:
@@ -63,10 +70,41 @@ func tail(g flx.V4, subs int) []string {
 	for i := uint32(1); i <= 3; i++ {
 		out = append(out, fmt.Sprintf("owner %x", g.Net+i))
 	}
-	return append(out, "stats")
+	return append(out, "stats", "audit")
+}
+
+// stress: burst-heavy sequences only (POOL_STRESS=1; the check runs them on a binary built with -race)
+func stress(r *rand.Rand, tier string, emit func([]string)) {
+	n := 150
+	if tier == "thorough" {
+		n = 1500
+	}
+	for i := 0; i < n; i++ {
+		g := smallGeos[r.Intn(len(smallGeos))]
+		subs := 2 + r.Intn(6)
+		seq := []string{newOp(g)}
+		for j, m := 0, 6+r.Intn(24); j < m; j++ {
+			s := fmt.Sprintf("s%d", 1+r.Intn(subs))
+			switch x := r.Intn(10); {
+			case x < 6:
+				seq = append(seq, fmt.Sprintf("burst %s %d", s, 2+r.Intn(7)))
+			case x < 8:
+				seq = append(seq, "release "+s)
+			case x < 9:
+				seq = append(seq, "stats")
+			default:
+				seq = append(seq, "audit")
+			}
+		}
+		emit(append(seq, tail(g, subs)...))
+	}
 }
 
 func (comp) Gen(r *rand.Rand, tier string, emit func([]string)) {
+	if os.Getenv("POOL_STRESS") != "" {
+		stress(r, tier, emit)
+		return
+	}
 	nSmall, nLarge := 1200, 6
 	if tier == "thorough" {
 		nSmall, nLarge = 25000, 60
@@ -117,7 +155,10 @@ func (comp) Gen(r *rand.Rand, tier string, emit func([]string)) {
 	}
 }
 
-type run struct{ p *pool.PeerPool }
+type run struct {
+	p     *pool.PeerPool
+	total int // number of addresses the pool was built with
+}
 
 func (comp) NewRun() hx.Run { return &run{} }
 func (r *run) Close()       {}
@@ -148,6 +189,7 @@ func (r *run) Do(op string) string {
 			return "invalid"
 		}
 		r.p = p
+		r.total = p.Stats().Total
 		return "ok"
 	}
 	if r.p == nil {
@@ -188,6 +230,14 @@ func (r *run) Do(op string) string {
 			return "none"
 		}
 		return s
+	case f[0] == "burst" && len(f) == 3 && subTok(f[1]):
+		k, err := strconv.Atoi(f[2])
+		if err != nil || k < 1 || k > 64 {
+			return "badop"
+		}
+		return flx.Agree(flx.Burst(k, r.p.HoldLocalPoolForVerif, func() string { return r.Do("alloc " + f[1]) }))
+	case f[0] == "audit" && len(f) == 1:
+		return flx.AuditLocal(r.p, r.total)
 	case f[0] == "stats" && len(f) == 1:
 		s := r.p.Stats()
 		return fmt.Sprintf("%d %d %d", s.Allocated, s.Available, s.Total)
